@@ -518,7 +518,7 @@ func tryReplay(P *Prog, verif, prop string, o *Obligation) map[string]any {
 		withBounds += "(assert " + b + ")\n"
 	}
 	tail := "(check-sat)\n(get-value (" + strings.Join(names, " ") + "))\n"
-	v, out, _ := runSolverCtx(context.Background(), solvers[1], withBounds+tail, 40, nil)
+	v, out := raceForModel(withBounds+tail, o.Solver, 40)
 	if v != "sat" {
 		res["replay_skipped"] = "no small model (all inputs within " + fmt.Sprint(replayMaxElems) + " elements): " + v
 		return res
@@ -696,4 +696,41 @@ func relPath(root, dir string) string {
 		return "."
 	}
 	return r
+}
+
+// raceForModel runs the bounded model query on every solver configuration that can
+// print models (the configuration that found the original model included) and returns
+// the first sat answer; the verdict of the last finisher otherwise.
+func raceForModel(query, winner string, timeoutS int) (string, string) {
+	ctx, cancel := context.WithCancel(context.Background())
+	defer cancel()
+	type ans struct{ v, out string }
+	var cands []solverSpec
+	for _, s := range solvers {
+		if s.name == "z3" { // 4.8.12 prints models in another dialect
+			continue
+		}
+		cands = append(cands, s)
+	}
+	ch := make(chan ans, len(cands))
+	for _, s := range cands {
+		go func(s solverSpec) {
+			in := query
+			if s.name == "cvc5" {
+				in = "(set-option :produce-models true)\n" + in
+			}
+			v, out, _ := runSolverCtx(ctx, s, in, timeoutS, nil)
+			ch <- ans{v, out}
+		}(s)
+	}
+	last := ans{"unknown", ""}
+	for range cands {
+		a := <-ch
+		if a.v == "sat" {
+			return a.v, a.out
+		}
+		last = a
+	}
+	_ = winner
+	return last.v, last.out
 }
